@@ -28,11 +28,27 @@ type F struct {
 	Lo       string
 	Hi       string
 	Body     func(term string) *F
+	Sort     string                   // sort of the bound variable ("" = Int with range [Lo,Hi))
+	Guard    func(term string) string // domain guard for non-integer quantifiers (map domain)
 	seqs     []SeqRef
 	seqsDone bool
 }
 
 func atom(s string) *F { return &F{Op: "atom", S: s} }
+
+func (f *F) sort() string {
+	if f.Sort == "" {
+		return "Int"
+	}
+	return f.Sort
+}
+
+func (f *F) guard(t string) string {
+	if f.Guard != nil {
+		return f.Guard(t)
+	}
+	return sAnd(sLe(f.Lo, t), sLt(t, f.Hi))
+}
 
 func (f *F) hasQ() bool {
 	switch f.Op {
@@ -78,11 +94,11 @@ func renderD(f *F, depth int) string {
 	case "forall", "exists":
 		v := fmt.Sprintf("%s?%d", f.Var, depth)
 		body := renderD(f.Body(v), depth+1)
-		g := sAnd(sLe(f.Lo, v), sLt(v, f.Hi))
+		g := f.guard(v)
 		if f.Op == "forall" {
-			return fmt.Sprintf("(forall ((%s Int)) %s)", v, sImp(g, body))
+			return fmt.Sprintf("(forall ((%s %s)) %s)", v, f.sort(), sImp(g, body))
 		}
-		return fmt.Sprintf("(exists ((%s Int)) %s)", v, sAnd(g, body))
+		return fmt.Sprintf("(exists ((%s %s)) %s)", v, f.sort(), sAnd(g, body))
 	}
 	panic("render")
 }
@@ -142,7 +158,7 @@ func nnf(f *F, neg bool) *F {
 			}
 		}
 		body := f.Body
-		return &F{Op: op, Var: f.Var, Lo: f.Lo, Hi: f.Hi, Body: func(t string) *F { return nnf(body(t), neg) }}
+		return &F{Op: op, Var: f.Var, Lo: f.Lo, Hi: f.Hi, Sort: f.Sort, Guard: f.Guard, Body: func(t string) *F { return nnf(body(t), neg) }}
 	}
 	panic("nnf")
 }
@@ -169,14 +185,18 @@ func (x *Exec) assumeG(st *State, guard string, f *F) {
 			x.assumeG(st, guard, k)
 		}
 	case "exists":
-		c := x.decls.Fresh("sk."+f.Var, "Int")
-		st.assume(sImp(guard, sAnd(sLe(f.Lo, c), sLt(c, f.Hi))))
-		st.addIdx(c)
+		c := x.decls.Fresh("sk."+f.Var, f.sort())
+		st.assume(sImp(guard, f.guard(c)))
+		if f.Sort == "" {
+			st.addIdx(c)
+		} else {
+			st.addKey(c, f.Sort)
+		}
 		x.assumeG(st, guard, x.bodyLogged(st, f, c))
 	case "forall":
 		if guard != "true" {
 			body := f.Body
-			f = &F{Op: "forall", Var: f.Var, Lo: f.Lo, Hi: f.Hi, Body: func(t string) *F {
+			f = &F{Op: "forall", Var: f.Var, Lo: f.Lo, Hi: f.Hi, Sort: f.Sort, Guard: f.Guard, Body: func(t string) *F {
 				return &F{Op: "or", Kids: []*F{atom(sNot(guard)), body(t)}}
 			}}
 		}
@@ -314,6 +334,26 @@ func (x *Exec) candidates(f *F, terms []IdxT) []string {
 func (x *Exec) instantiate(f *F, terms []IdxT, depth int, out *[]string) {
 	switch f.Op {
 	case "forall":
+		if f.Sort != "" {
+			// quantifier over a map domain: instantiate with the key terms seen on the path
+			if x.withQ {
+				*out = append(*out, render(f))
+			}
+			n := 0
+			for _, k := range x.curKeys {
+				if k.Sort != f.Sort {
+					continue
+				}
+				n++
+				if n > 12 {
+					break
+				}
+				var sub []string
+				x.instantiate(f.Body(k.T), terms, depth+1, &sub)
+				*out = append(*out, sImp(f.guard(k.T), sAnd(sub...)))
+			}
+			return
+		}
 		if x.bound >= 0 {
 			// bounded refutation: expand exactly, under the extra assumption that the range is short
 			*out = append(*out, sLe(sSub(f.Hi, f.Lo), sInt(int64(x.bound))))
@@ -348,7 +388,7 @@ func (x *Exec) instantiate(f *F, terms []IdxT, depth int, out *[]string) {
 			}
 			var sub []string
 			x.instantiate(f.Body(t), terms, depth+1, &sub)
-			*out = append(*out, sImp(sAnd(sLe(f.Lo, t), sLt(t, f.Hi)), sAnd(sub...)))
+			*out = append(*out, sImp(f.guard(t), sAnd(sub...)))
 		}
 	case "and":
 		for _, k := range f.Kids {
@@ -407,9 +447,13 @@ func (x *Exec) proveNNF(fr *Frame, st *State, name, kind string, f *F, in ssa.In
 			return // literally one of the assumptions
 		}
 		s2 := st.clone()
-		c := x.decls.Fresh("sk."+f.Var, "Int")
-		s2.assume(sAnd(sLe(f.Lo, c), sLt(c, f.Hi)))
-		s2.addIdxFront(c)
+		c := x.decls.Fresh("sk."+f.Var, f.sort())
+		s2.assume(f.guard(c))
+		if f.Sort == "" {
+			s2.addIdxFront(c)
+		} else {
+			s2.addKey(c, f.Sort)
+		}
 		x.proveNNF(fr, s2, name, kind, x.bodyLogged(s2, f, c), in)
 		return
 	case "or":
@@ -438,6 +482,16 @@ func (x *Exec) proveNNF(fr *Frame, st *State, name, kind string, f *F, in ssa.In
 	case "exists":
 		// instantiate with candidate terms; keep the quantified form as a last resort
 		var ds []string
+		if f.Sort != "" {
+			for _, k := range st.keys {
+				if k.Sort == f.Sort {
+					ds = append(ds, sAnd(f.guard(k.T), render(f.Body(k.T))))
+				}
+			}
+			ds = append(ds, render(f))
+			x.emit(fr, st, name, kind, atom(sOr(ds...)), in)
+			return
+		}
 		if x.bound >= 0 {
 			s2 := st.clone()
 			s2.assume(sLe(sSub(f.Hi, f.Lo), sInt(int64(x.bound))))
@@ -454,7 +508,7 @@ func (x *Exec) proveNNF(fr *Frame, st *State, name, kind string, f *F, in ssa.In
 			cands = cands[:24]
 		}
 		for _, t := range cands {
-			ds = append(ds, sAnd(sLe(f.Lo, t), sLt(t, f.Hi), render(f.Body(t))))
+			ds = append(ds, sAnd(f.guard(t), render(f.Body(t))))
 		}
 		ds = append(ds, render(f))
 		x.emit(fr, st, name, kind, atom(sOr(ds...)), in)
@@ -1155,11 +1209,28 @@ func (x *Exec) pureApp(fr *Frame, st *State, key string, con *Contract, sig *typ
 				i++
 			}
 			for _, en := range con.Ensures {
-				x.assumeF(st, env.evalBool(en.Expr).formula())
+				if f, ok := env.evalCallerSide(en); ok {
+					x.assumeF(st, f)
+				}
 			}
 		}
 	}
 	return res
+}
+
+// evalCallerSide evaluates a callee postcondition at a call site; clauses that talk about the callee's local variables
+// mean nothing to callers and are skipped (fewer assumptions: sound)
+func (e *SpecEnv) evalCallerSide(c Clause) (f *F, ok bool) {
+	defer func() {
+		if r := recover(); r != nil {
+			if se, is := r.(specErr); is && strings.Contains(se.msg, "unknown identifier") {
+				ok = false
+				return
+			}
+			panic(r)
+		}
+	}()
+	return e.evalBool(c.Expr).formula(), true
 }
 
 func shortKey(key string) string {
@@ -1345,6 +1416,9 @@ func (e *SpecEnv) specFunc(sf *SpecFunc, argExprs []ast.Expr) Val {
 			}
 		}
 	}
+	if sf.Rec && !opaque && sf.Body != nil {
+		return e.recApply(sf, args)
+	}
 	if sf.Body == nil || sf.Rec || opaque {
 		// uninterpreted (or recursive: uninterpreted + unfold hints)
 		var sorts, terms []string
@@ -1429,6 +1503,38 @@ func (e *SpecEnv) builtinSpec(name string, c *ast.CallExpr) (Val, bool) {
 			return ne.evalBool(bodyAST).formula()
 		}
 		return bval(&F{Op: name, Var: id.Name, Lo: lo, Hi: hi, Body: body}), true
+	case "forallKeys", "existsKeys":
+		// forallKeys(k, m, body): for every key k in the domain of map m
+		if len(c.Args) != 3 {
+			sfail("%s(k, m, body) expects 3 arguments", name)
+		}
+		id, ok := c.Args[0].(*ast.Ident)
+		if !ok {
+			sfail("%s: first argument must be a variable name", name)
+		}
+		m := arg(1)
+		mt, ok := m.T.Underlying().(*types.Map)
+		if !ok || m.K != KRef {
+			sfail("%s: second argument must be a map", name)
+		}
+		ks := mapKeySort(mt)
+		bodyAST := c.Args[2]
+		frozen := *e
+		frozen.st = e.st.snapshot()
+		kt := mt.Key()
+		kk := kindOf(kt)
+		x := e.x
+		fst := frozen.st
+		guard := func(t string) string { return x.mapHas(fst, m, Val{K: kk, T: kt, S: t}) }
+		body := func(t string) *F {
+			ne := frozen.with(map[string]Val{id.Name: {K: kk, T: kt, S: t}})
+			return ne.evalBool(bodyAST).formula()
+		}
+		op := "forall"
+		if name == "existsKeys" {
+			op = "exists"
+		}
+		return bval(&F{Op: op, Var: id.Name, Sort: ks, Guard: guard, Body: body}), true
 	case "old":
 		if e.old == nil {
 			sfail("old() used where no pre-state exists")
@@ -1669,4 +1775,93 @@ func (e *SpecEnv) lemmaInstance(lm *Contract, argExprs []ast.Expr) Val {
 	lm.used = true
 	e.x.note("uses lemma " + lm.Key + " (proved separately)")
 	return bval(&F{Op: "imp", Kids: []*F{{Op: "and", Kids: pre}, {Op: "and", Kids: post}}})
+}
+
+// recApply: a recursive spec function is an uninterpreted function (of its arguments and of the heap arrays its body reads)
+// together with a one-step unfolding of every application that occurs ("fuel 1"); termination of the definition is assumed
+func (e *SpecEnv) recApply(sf *SpecFunc, args []Val) Val {
+	x := e.x
+	if x.unfoldDepth == nil {
+		x.unfoldDepth = map[string]int{}
+	}
+	names := map[string]Val{}
+	for i, p := range sf.Params {
+		names[p.Name] = args[i]
+	}
+	evalBody := func() Val {
+		ne := &SpecEnv{x: x, fr: e.fr, st: e.st, old: e.old, names: names, pkg: sf.Pkg, depth: e.depth + 1}
+		x.unfoldDepth[sf.Name]++
+		defer func() { x.unfoldDepth[sf.Name]-- }()
+		return ne.eval(sf.Body)
+	}
+	if sf.probing {
+		rt := x.eng.resolveType(sf.Pkg, sf.Result)
+		if rt == mathInt {
+			return Val{K: KInt, T: types.Typ[types.UntypedInt], S: "0"}
+		}
+		return zeroVal(rt)
+	}
+	// heap keys read by the body (discovered once, on the first application)
+	if !sf.keysDone {
+		sf.probing = true
+		var log []readRec
+		saved := x.readLog
+		x.readLog = &log
+		func() {
+			defer func() { x.readLog = saved }()
+			evalBody()
+		}()
+		seen := map[string]bool{}
+		for _, r := range log {
+			if !seen[r.key] {
+				seen[r.key] = true
+				sf.readKeys = append(sf.readKeys, r)
+			}
+		}
+		sf.keysDone = true
+		sf.probing = false
+	}
+	var sorts, terms []string
+	for i, a := range args {
+		t := x.eng.resolveType(sf.Pkg, sf.Params[i].Type)
+		if t == nil {
+			sfail("cannot resolve parameter type of spec function %s", sf.Name)
+		}
+		for _, c := range compsOf(t) {
+			sorts = append(sorts, c.Sort)
+		}
+		terms = append(terms, flatten(a)...)
+	}
+	for _, r := range sf.readKeys {
+		x.matContext = strings.Join(terms, " ")
+		ss, ts := x.materialize(e.st, r.key, r.t)
+		x.matContext = ""
+		sorts = append(sorts, ss...)
+		terms = append(terms, ts...)
+	}
+	rt := x.eng.resolveType(sf.Pkg, sf.Result)
+	if rt == nil {
+		sfail("cannot resolve result type of spec function %s", sf.Name)
+	}
+	cs := compsOf(rt)
+	if len(cs) != 1 {
+		sfail("spec function %s: compound result types are not supported", sf.Name)
+	}
+	fnm := "S." + sanitize(sf.Pkg) + "." + sf.Name
+	x.decls.Fun(fnm, sorts, cs[0].Sort)
+	t := x.decls.Define("rec."+sf.Name, cs[0].Sort, "("+fnm+" "+strings.Join(terms, " ")+")")
+	res := Val{K: cs[0].K, T: rt, S: t}
+	if rt == mathInt {
+		res = Val{K: KInt, T: types.Typ[types.UntypedInt], S: t}
+	}
+	if x.unfoldDepth[sf.Name] == 0 && !e.st.applied["unfold:"+t] && !strings.Contains(t, "?") {
+		e.st.applied["unfold:"+t] = true
+		b := evalBody()
+		if b.K == KBool {
+			e.st.assume(sEq(t, b.S))
+		} else {
+			e.st.assume(sEq(t, b.S))
+		}
+	}
+	return res
 }
